@@ -319,17 +319,23 @@ func c16Check(c c16Case) *evid.Fail {
 			}
 			e.Cluster.SetMember(h, false)
 			w.member[h] = false
-			e.Cluster.Host(h).SetReject(true)
+			controlOnH := false
+			for _, cn := range e.Cluster.Host(h).Conns() {
+				if cn.IsRegistered() {
+					controlOnH = true
+				}
+			}
+			if a.N%2 == 0 && !controlOnH {
+				// the node is only taken out of the peers tables: its established connections stay up (it refuses
+				// new ones, so the control connection cannot move there and list it again). Requests must stop
+				// going to it although the proxy could still reach it.
+				e.Cluster.Host(h).SetRejectNew()
+			} else {
+				e.Cluster.Host(h).SetReject(true)
+			}
 			w.emitTopology("removed", h)
 			if f := w.awaitConvergence(what); f != nil {
 				return f
-			}
-			// once the proxy follows the new topology it must stop dialling the removed node
-			time.Sleep(3 * c16ReconMax)
-			n1 := len(e.Cluster.Host(h).AcceptTimes())
-			time.Sleep(5 * c16ReconMax)
-			if n2 := len(e.Cluster.Host(h).AcceptTimes()); n2 > n1 {
-				return evid.Failf("removed-node-still-dialled", "%d connection attempts reached node %d after the proxy had converged on a topology without it", n2-n1, h)
 			}
 		case "restart_node":
 			if !w.member[h] || e.Cluster.Host(h).Rejecting() {
